@@ -80,6 +80,14 @@ def check_object(obj, what, r=None):
             r.outcomes[f'{n}: free={sorted(exp)}'] += 1
         if got[0] != 'ok' or set(got[1]) != exp:
             bad('external_references', f'expected {sorted(exp)}, got {got}')
+        elif isinstance(got[1], (set, list)):
+            # the returned container belongs to the caller: modify it, then ask again (history of length 2)
+            (got[1].add if isinstance(got[1], set) else got[1].append)('JUNK')
+            if isinstance(got[1], set) and exp:
+                got[1].discard(sorted(exp)[0])
+            again = _call(obj.external_references)
+            if again[0] != 'ok' or set(again[1]) != exp:
+                bad('external_references', f'second call after the caller modified the first result: expected {sorted(exp)}, got {again}')
         for name in NAMES:
             got = _call(obj.contains_reference, name)
             exp = W.occurs_var(obj, name)
@@ -100,6 +108,11 @@ def check_object(obj, what, r=None):
         exp = W.event_aliases(obj)
         if got[0] != 'ok' or tuple(got[1]) != exp:
             bad('aliases', f'expected {exp}, got {got}')
+        elif isinstance(got[1], list):
+            got[1].append('JUNK')
+            again = _call(obj.aliases)
+            if again[0] != 'ok' or tuple(again[1]) != exp:
+                bad('aliases', f'second call after the caller modified the first result: expected {exp}, got {again}')
     if n == 'HplPredicateExpression':
         got = _call(obj.check_some_self_references)
         exp = W.has_own_field(obj)
@@ -359,7 +372,7 @@ def replay(w):
 def describe(tier):
     b = bounds(tier)
     return {
-        'rule': f"every Bool/Num term with <= {b['nodes']} nodes over atoms x @a @a.f @b.f m.f 1 p @a.p xs @a.xs with + ** = < and implies not unary-minus abs len sum max int(bool), sets (1-3), ranges, indexing xs[..], inclusion, forall/exists binding a or i over arrays/sets/ranges: markers therefore occur in every child slot of every expression node kind; each accepted term is taken as expression (parser and API), predicate, event without alias / with alias a / zz, 3-wide event disjunction, pattern and property; plus 14 texts that put quantifiers and markers into slots the node bound does not reach (a quantifier inside another quantifier's domain, inside an index, a function argument, a set element; markers below several accessors; one name free and bound), every sub-object of which is queried; plus a family of 20 multi-event properties and a specification for scope/pattern/property/specification-level iterate() and aliases(). Every queried expression / predicate / event is then copied (replace_var_reference, replace_self_reference, negate, but) and the copy is queried too (call sequences of depth 2). A state = one real object queried; a transition = one group of query calls on it.",
+        'rule': f"every Bool/Num term with <= {b['nodes']} nodes over atoms x @a @a.f @b.f m.f 1 p @a.p xs @a.xs with + ** = < and implies not unary-minus abs len sum max int(bool), sets (1-3), ranges, indexing xs[..], inclusion, forall/exists binding a or i over arrays/sets/ranges: markers therefore occur in every child slot of every expression node kind; each accepted term is taken as expression (parser and API), predicate, event without alias / with alias a / zz, 3-wide event disjunction, pattern and property; plus 14 texts that put quantifiers and markers into slots the node bound does not reach (a quantifier inside another quantifier's domain, inside an index, a function argument, a set element; markers below several accessors; one name free and bound), every sub-object of which is queried; plus a family of 20 multi-event properties and a specification for scope/pattern/property/specification-level iterate() and aliases(). Every queried expression / predicate / event is then copied (replace_var_reference, replace_self_reference, negate, but) and the copy is queried too (call sequences of depth 2). Containers returned by external_references() / aliases() are modified by the harness and the query is repeated. A state = one real object queried; a transition = one group of query calls on it.",
         'bounds': b,
         'exhaustive': True,
         'assumptions': ['attrs.fields() order is declaration order; the generic walk treats every AST-valued field as a child'],
